@@ -321,6 +321,127 @@ fn run_regressions(case: u64, ev: &mut Ev) {
     }
 }
 
+/// the polytope with no rows at all (a 0 x n matrix): the whole space
+fn run_zero_by_n(case: u64, rng: &mut Rng, ev: &mut Ev) {
+    let n = 1 + rng.below(5);
+    let p = Aff { mat: vec![], bias: vec![] };
+    let lp = affinitree::linalg::affine::Polytope::from_mats(gen::arr2(&[], n), arr1(&[]));
+    ev.evaluations += 1;
+    ev.inc("class_zero_by_n");
+    let desc = json!({"class": "0 x n (no rows)", "n": n});
+    for k in 0..3 {
+        let c: Vec<f64> = if k == 0 { vec![0.0; n] } else { (0..n).map(|_| rng.int(-3, 3) as f64).collect() };
+        let ans = match lib(case, "solve_linprog", || lp.solve_linprog(arr1(&c), false)) {
+            Ok(a) => a,
+            Err(pm) => {
+                ev.violation(case, "c10:solve_linprog:panic", "", json!({"case": desc, "objective": c, "panic": pm}));
+                return;
+            }
+        };
+        let d2 = json!({"case": desc, "objective": c});
+        if !handle(referee(&p.mat, &p.bias, &c, &ans), case, ev, "solve_linprog", &d2, &ans) {
+            return;
+        }
+    }
+    let mut h = Hasher::new();
+    h.s(&desc.to_string());
+    ev.nontrivial(h.fin());
+}
+
+/// extreme but finite magnitudes: boxes / intervals / slabs whose bounds are 10^k, k up to 30, with exact
+/// power-of-two or decimal bounds; the answer must still be classified correctly (a bounded program with
+/// optimum 1e21 is not "unbounded") - values are compared relative to their magnitude
+fn run_huge(case: u64, rng: &mut Rng, ev: &mut Ev) {
+    let n = 1 + rng.below(3);
+    let mag = 10f64.powi(rng.int(8, 30) as i32);
+    let mut mat = Vec::new();
+    let mut bias = Vec::new();
+    let bounded_above = rng.chance(0.8);
+    for j in 0..n {
+        let mut r = vec![0.0; n];
+        r[j] = 1.0;
+        if bounded_above || j > 0 {
+            mat.push(r.clone());
+            bias.push(mag * (1 + rng.below(3)) as f64);
+        }
+        r[j] = -1.0;
+        mat.push(r);
+        bias.push(if rng.chance(0.5) { 0.0 } else { -mag * 0.5 });
+    }
+    let p = Aff { mat, bias };
+    ev.evaluations += 1;
+    ev.inc("class_huge_magnitude");
+    let desc = json!({"class": "huge magnitude", "P": p.json()});
+    let lp = p.to_poly();
+    let st = match lib(case, "status", || lp.status()) {
+        Ok(s) => s,
+        Err(pm) => {
+            ev.violation(case, "c10:status:panic", "", json!({"case": desc, "panic": pm}));
+            return;
+        }
+    };
+    // the set is a non-empty box / orthant piece: it must be reported feasible
+    if matches!(st, PolytopeStatus::Infeasible) {
+        ev.violation(case, "c10:false-infeasible:status", "", json!({"case": desc, "library_answer": format!("{:?}", st), "problem": "a box with bounds of large magnitude is reported infeasible"}));
+        return;
+    }
+    // min of -x_j is attained iff x_j is bounded above; min of +x_j always (lower bounds exist)
+    for j in 0..n {
+        for sg in [1.0f64, -1.0] {
+            let mut c = vec![0.0; n];
+            c[j] = sg;
+            let ans = match lib(case, "solve_linprog", || lp.solve_linprog(arr1(&c), false)) {
+                Ok(a) => a,
+                Err(pm) => {
+                    ev.violation(case, "c10:solve_linprog:panic", "", json!({"case": desc, "objective": c, "panic": pm}));
+                    return;
+                }
+            };
+            let has_min = sg > 0.0 || bounded_above || j > 0;
+            let d2 = json!({"case": desc, "objective": c});
+            match &ans {
+                PolytopeStatus::Optimal(x) => {
+                    if !has_min {
+                        ev.violation(case, "c10:optimal-on-unbounded:solve_linprog", "", json!({"case": d2, "library_answer": format!("{:?}", ans)}));
+                        return;
+                    }
+                    // value relative to the magnitude
+                    let upper = p.mat.iter().zip(p.bias.iter()).find(|(r, _)| r[j] == 1.0).map(|(_, b)| *b);
+                    let lower = p.mat.iter().zip(p.bias.iter()).find(|(r, _)| r[j] == -1.0).map(|(_, b)| -*b).unwrap();
+                    let expect = if sg > 0.0 { lower } else { upper.unwrap() };
+                    if !((x[j] - expect).abs() <= 1e-9 * mag) {
+                        ev.violation(case, "c10:suboptimal:solve_linprog", "", json!({"case": d2, "library_answer": format!("{:?}", ans), "expected_coordinate": expect}));
+                        return;
+                    }
+                    ev.inc("huge_optima_verified");
+                }
+                PolytopeStatus::Unbounded => {
+                    if has_min {
+                        // the pinned minilp has the known finding K1 (false Unbounded with a non-zero objective):
+                        // only counted as K1 when minilp itself, called directly, says the same
+                        if minilp_says_unbounded(&p.mat, &p.bias, &c) {
+                            ev.violation(case, "c10:unbounded-but-optimum-exists:solve_linprog", K1_KEY, json!({"case": d2, "library_answer": "Unbounded"}));
+                        } else {
+                            ev.violation(case, "c10:unbounded-but-optimum-exists:solve_linprog", "", json!({"case": d2, "library_answer": "Unbounded", "problem": "a bounded program with an optimum of large magnitude is reported unbounded although minilp itself solves it"}));
+                            return;
+                        }
+                    } else {
+                        ev.inc("huge_unbounded_verified");
+                    }
+                }
+                PolytopeStatus::Infeasible => {
+                    ev.violation(case, "c10:false-infeasible:solve_linprog", "", json!({"case": d2, "library_answer": "Infeasible"}));
+                    return;
+                }
+                PolytopeStatus::Error(_) => ev.skip("library reported a solver error"),
+            }
+        }
+    }
+    let mut h = Hasher::new();
+    h.s(&desc.to_string());
+    ev.nontrivial(h.fin());
+}
+
 /// badly scaled systems: rows multiplied by powers of two up to 2^21 and near-duplicate slabs, the kind of
 /// path polytope that long composition histories produce
 fn run_badly_scaled(case: u64, rng: &mut Rng, ev: &mut Ev) {
@@ -374,6 +495,12 @@ pub fn run_case(ctx: &Ctx, case: u64, ev: &mut Ev) {
     }
     if rng.chance(0.08) {
         return run_badly_scaled(case, &mut rng, ev);
+    }
+    if rng.chance(0.01) {
+        return run_zero_by_n(case, &mut rng, ev);
+    }
+    if rng.chance(0.03) {
+        return run_huge(case, &mut rng, ev);
     }
     match rng.below(10) {
         0..=5 => run_generated(case, &mut rng, ev),
